@@ -5,6 +5,7 @@ import (
 	"context"
 	"encoding/hex"
 	"fmt"
+	"strings"
 	"time"
 
 	"github.com/arloliu/go-secs/v2/secs1"
@@ -121,8 +122,35 @@ func c18Straddle(c *Ctx) {
 				if sendErr != nil {
 					c.Violate("property", "straddle-host-postponed-send-failed", "the host's postponed send failed after the contention resolved: "+sendErr.Error(), replay)
 				}
-				if rec := p.takeReceived(); len(rec) != 1 {
+				rec := p.takeReceived()
+				if len(rec) != 1 {
 					c.Violate("property", "straddle-host-message-count", fmt.Sprintf("the master received %d blocks from the host, expected the one postponed message", len(rec)), replay)
+				}
+				// cross-check with the two-endpoint model: the master's message is offered, block 1 is transferred on
+				// the idle path, the host's message is offered, the rest runs undisturbed (`secs1.lineev ... MnS`)
+				if c.Lean != nil && len(rec) == 1 && len(rec[0]) >= 13 {
+					w := rec[0]
+					hostBody := w[11 : len(w)-2]
+					line := fmt.Sprintf("secs1.lineev %d 3 3 MnS M %d:%d:%s:%s:%s S %d:%d:%s:%s:%s", e.dev,
+						h.Stream, h.Function, b01(h.WaitBit), hex.EncodeToString(h.SystemBytes[:]), s1hex(body),
+						w[3]&0x7f, w[4], b01(w[3]&0x80 != 0), hex.EncodeToString(w[7:11]), s1hex(hostBody))
+					ans := c.Lean.Ask(line)
+					hostImg := append([]byte{w[1] & 0x7f, w[2], w[3], w[4], 0, 0, w[7], w[8], w[9], w[10]}, hostBody...)
+					var gs []string
+					for _, g := range got {
+						gs = append(gs, hex.EncodeToString(g.frame))
+					}
+					okS := "OK[]"
+					if sendErr == nil {
+						okS = "OK[" + hex.EncodeToString(w[7:11]) + "]"
+					}
+					wantAns := fmt.Sprintf("M D[%s] OK[%s] FAIL[] retry=0 | S D[%s] %s FAIL[] retry=0 | quiescent=true",
+						hex.EncodeToString(hostImg), hex.EncodeToString(h.SystemBytes[:]), strings.Join(gs, ","), okS)
+					if ans != wantAns {
+						c.Violate("correspondence", "straddle-differs-from-line-model", fmt.Sprintf("impl %s / model %s", s1clip(wantAns, 400), s1clip(ans, 400)), replay)
+					}
+					c.Res.Traces++
+					c.Stat("straddle-model-checked")
 				}
 			}()
 		}
